@@ -8,10 +8,13 @@ package main
 // one Content-Length = body length, body bytes.
 
 import (
+	"bufio"
 	"fmt"
+	"net"
 	"strconv"
 	"strings"
 	"testing"
+	"time"
 
 	"pgregory.net/rapid"
 )
@@ -66,7 +69,7 @@ func c01Classes(m *AMsg, path string, tcpIn bool, at labRx) {
 func TestC01(t *testing.T) {
 	V.Rule("lab: well-formed requests (any method token; sip/sips/tel/urn Request-URI with users, passwords, ports, valued/valueless parameters, URI headers) and responses (100-699), 0-40 extension headers (token names incl. compact/odd-case/repeated; values empty, long around the 4096/8192/16384 windows, rich in % \" ; , < > = : @ ?, UTF-8, invalid UTF-8, NUL/TAB, white-space-like runes at the edges), any From/To/Call-ID/CSeq, bodies 0-60 KiB of arbitrary bytes, drawn header-name spelling, list layout and header interleaving; relayed over the four paths (backend, Route, static route, response by Via), UDP and TCP ingress/egress, listen entries with different settings; output read by the independent reader. non-trivial = >= 1 extension header and (a value with a non-token byte or > 4096 bytes, or a non-canonical spelling, or a non-empty body); distinct by input bytes + path")
 	V.Assume("outside the domain and not generated: folded lines, blanks before the colon, runs of blanks in the start line, messages without Content-Length, CR/LF inside values")
-	V.Require("Content-Length written with leading zeros", "a second request with the Via stack and method of the one before, other content", "pipelined over tcp", "path:backend", "path:route", "path:static", "path:response", "ingress:tcp", "ingress:udp", "egress:tcp", "egress:udp", "header line > 4096 bytes", "body has NUL/CR/LF", "non-canonical Content-Length spelling", "response or tel/urn Request-URI")
+	V.Require("a tcp next hop that stops reading for seconds with megabytes under way", "Content-Length written with leading zeros", "a second request with the Via stack and method of the one before, other content", "pipelined over tcp", "path:backend", "path:route", "path:static", "path:response", "ingress:tcp", "ingress:udp", "egress:tcp", "egress:udp", "header line > 4096 bytes", "body has NUL/CR/LF", "non-canonical Content-Length spelling", "response or tel/urn Request-URI")
 	svc, err := newStdSvc(stdVariant{Keep: "", Default: false, NoReceived: [3]string{"", "true", ""}, MustRR: [3]string{"", "true", ""}})
 	if err != nil {
 		V.HarnessError(t, "cannot start lab instance: %v", err)
@@ -181,6 +184,103 @@ func TestC01(t *testing.T) {
 					failf(rt, "second request with the Via stack and method of the one before (%s path), arrived at %s: %s", rc.Path, r.where(), f)
 				}
 			}
+		}
+	})
+
+	// A TCP next hop that stops reading for a few seconds while megabytes are on
+	// their way to it, then reads on: what it finally reads is the requests that
+	// were sent, each intact, in order - however the proxy's writes fared meanwhile.
+	rcheck(t, "slow-tcp-hop", V.N(1, 4), func(rt *rapid.T) {
+		s := svc
+		l := s.in.cfg.Listens[0]
+		s.seq++
+		hip, hport := s.ip(26), 9000+s.seq%20000
+		ln, err := net.Listen("tcp", fmt.Sprintf("%s:%d", hip, hport))
+		if err != nil {
+			V.HarnessError(rt, "hop cannot listen: %v", err)
+		}
+		defer ln.Close()
+		n := rapid.IntRange(110, 150).Draw(rt, "requests")
+		pause := time.Duration(rapid.IntRange(2600, 3600).Draw(rt, "ms without reading")) * time.Millisecond
+		type rx struct {
+			m   *RMsg
+			err error
+		}
+		got := make(chan rx, n+8)
+		go func() {
+			c, err := ln.Accept()
+			if err != nil {
+				got <- rx{nil, err}
+				return
+			}
+			defer c.Close()
+			time.Sleep(pause)
+			rd := bufio.NewReaderSize(c, 1<<16)
+			for {
+				m, err := sipReadStream(rd)
+				got <- rx{m, err}
+				if err != nil {
+					return
+				}
+			}
+		}()
+		c, err := s.in.hub.dialTCP("c01-slow", s.ip(13), l.Addr, l.TCPPort)
+		if err != nil {
+			failf(rt, "TCP listener does not accept: %v", err)
+		}
+		defer c.close()
+		var sent []*RMsg
+		var wires [][]byte
+		for i := 0; i < n; i++ {
+			id := s.nextID("slow-")
+			var bb strings.Builder
+			blen := rapid.IntRange(40000, 60000).Draw(rt, "body len")
+			for k := 0; bb.Len() < blen; k++ {
+				fmt.Fprintf(&bb, "%s/%d/%07d\x00\r\n", id, i, k)
+			}
+			body := bb.String()[:blen]
+			w := []byte(fmt.Sprintf("MESSAGE sip:x@nomatch.example SIP/2.0\r\nVia: SIP/2.0/TCP %s:5060;branch=z9hG4bK%s\r\nMax-Forwards: 70\r\nRoute: <sip:%s:%d;transport=tcp;lr>\r\nFrom: <sip:a@a.example>;tag=f\r\nTo: <sip:x@nomatch.example>\r\nCall-ID: %s\r\nCSeq: %d MESSAGE\r\nSubject: request %d of %d\r\nContent-Length: %d\r\n\r\n%s", s.ip(13), id, hip, hport, id, i+1, i+1, n, len(body), body))
+			m, err := sipRead(w)
+			if err != nil {
+				V.HarnessError(rt, "own message unreadable: %v", err)
+			}
+			sent = append(sent, m)
+			wires = append(wires, w)
+		}
+		V.Journal(t.Name()+"/slow-tcp-hop", map[string]any{"hop": fmt.Sprintf("%s:%d", hip, hport), "requests": n, "pause_ms": pause.Milliseconds()})
+		wdone := make(chan error, 1)
+		go func() {
+			for _, w := range wires {
+				c.conn.SetWriteDeadline(time.Now().Add(60 * time.Second))
+				if _, err := c.conn.Write(w); err != nil {
+					wdone <- err
+					return
+				}
+			}
+			wdone <- nil
+		}()
+		total := 0
+		for _, w := range wires {
+			total += len(w)
+		}
+		V.Class("a tcp next hop that stops reading for seconds with megabytes under way")
+		V.NonTrivial(fmt.Sprintf("slow|%d|%d", n, total))
+		V.EvalN(n)
+		budget := newPatience(pause + 40*time.Second)
+		for i := 0; i < n; i++ {
+			r, ok, _ := patientRecvP(got, budget, pause+40*time.Second)
+			if !ok {
+				failf(rt, "a TCP next hop that did not read for %v and then read on: %d of %d requests (%d bytes in all) arrived within 40 s of its reading again; the rest never came", pause, i, n, total)
+			}
+			if r.err != nil {
+				failf(rt, "a TCP next hop that did not read for %v and then read on: after %d of %d intact requests its stream can no longer be framed (%v) - it does not consist of the requests that were sent", pause, i, n, r.err)
+			}
+			if f := checkContentR(sent[i], r.m); f != "" {
+				failf(rt, "a TCP next hop that did not read for %v and then read on: message %d of its stream is not request %d as sent: %s", pause, i+1, i+1, f)
+			}
+		}
+		if err, ok := patientRecv(wdone, 30*time.Second); ok && err != nil {
+			failf(rt, "the proxy closed the client's connection, which carried only well-formed requests: %v", err)
 		}
 	})
 
